@@ -11,7 +11,7 @@
    Json.store          the C object tree after assigning the fields
    Json.py_tree        dataclasses.asdict + generated dict_factory + json.dumps *)
 From Coq Require Import ZArith List Bool String.
-From BP Require Import Schema JsonBase Json JsonProofs.
+From BP Require Import Schema JsonBase Json JsonWf JsonProofs JsonText.
 Import ListNotations.
 Open Scope string_scope.
 Open Scope Z_scope.
@@ -87,6 +87,48 @@ Theorem C16_widths : forall n, 1 <= n <= 64 -> width_ok n = true.
 Proof. exact width_ok_at. Qed.
 Print Assumptions C16_widths.
 
+(* WELL-FORMEDNESS.  wf_json is a recogniser for JSON texts (RFC 8259 grammar restricted to
+   what can occur: no white space, integers without leading zeros, true/false, arrays,
+   objects whose keys are strings of unescaped characters).  It accepts whatever
+   print_compact writes for a tree with plain keys ... *)
+Theorem C16_wf_json : forall j, keys_safe j = true -> wf_json (print_compact j) = true.
+Proof. exact wf_json_print. Qed.
+Print Assumptions C16_wf_json.
+
+(* ... hence the text the C runtime writes is a JSON text (field names are identifiers) *)
+Theorem C16_c_text_wf_json : forall t v,
+  shape_ok t = true -> wf (erase t) = true -> has_ty (erase t) v = true ->
+  (exists x fs, t = NMsg x fs) -> names_safe t = true ->
+  exists s, c_text t (store t v) = Some s /\ wf_json s = true.
+Proof. exact c_text_wf_json. Qed.
+Print Assumptions C16_c_text_wf_json.
+
+(* ... and so is Python's to_json(separators=(",", ":")) in the guarded region *)
+Theorem C16_py_compact_wf_json : forall t v,
+  no_byte_array t = true -> no_proxy_names t = true -> names_distinct t = true ->
+  has_ty (erase t) v = true -> names_safe t = true ->
+  exists s, py_to_json "," ":" t v = POk s /\ wf_json s = true.
+Proof. exact py_compact_wf_json. Qed.
+Print Assumptions C16_py_compact_wf_json.
+
+(* identifiers of the schema language are plain keys *)
+Theorem C16_identifiers_plain : forall s, ident_string s = true -> safe_string s = true.
+Proof. exact ident_string_safe. Qed.
+Print Assumptions C16_identifiers_plain.
+
+(* the decimal printer is injective: equal numerals, equal numbers (read_dec reads them back) *)
+Theorem C16_decimal_roundtrip : forall z, read_dec (dec_Z z) = z.
+Proof. exact read_dec_Z. Qed.
+Print Assumptions C16_decimal_roundtrip.
+
+(* the recogniser is not trivial: it rejects what is not JSON *)
+Example C16_wf_json_rejects :
+  map wf_json ["[1,]"; "{""a"":1,}"; "{""a"":1"; "01"; "tru"; "[1 2]"; "-"; "{a:1}"; "[1]]"; ""]
+  = [false; false; false; false; false; false; false; false; false; false]
+  /\ map wf_json ["{""a"":[1,-2,0],""b"":{""c"":true,""d"":false},""e"":[]}"; "{}"; "-0"]
+  = [true; true; true].
+Proof. vm_compute. split; reflexivity. Qed.
+
 (* non-vacuity: a permuted, nested example with aliases, enums, arrays of messages, negative
    wide integers meets every hypothesis and the conclusions compute *)
 Definition ex_inner : nty := NMsg false [(2, ("ok", NBool)); (1, ("x", NInt 13))].
@@ -107,5 +149,6 @@ Example C16_nonvacuous :
   c_text ex_t (store ex_t ex_v) =
     Some "{""c"":2,""t"":-140737488355328,""a"":31,""inn"":{""x"":-4096,""ok"":true},""arr"":[{""x"":4095,""ok"":false},{""x"":-1,""ok"":true}],""small"":[-64,63,-1],""w"":[1,8589934591,0],""tt"":[9223372036854775807,-9223372036854775808]}" /\
   py_to_json "," ":" ex_t ex_v = POk (print_compact (expected ex_t ex_v)) /\
-  c_text ex_t (store ex_t ex_v) = Some (print_compact (expected ex_t ex_v)).
+  c_text ex_t (store ex_t ex_v) = Some (print_compact (expected ex_t ex_v)) /\
+  names_safe ex_t = true /\ wf_json (print_compact (expected ex_t ex_v)) = true.
 Proof. vm_compute. repeat split; reflexivity. Qed.
